@@ -40,11 +40,14 @@ def tasks(tier):
         ts.append(Task('verifHarness_C09_frame_conf', [via], pkg='pkg/frame'))
     for raw in (0, 1, 2):
         ts.append(Task('verifHarness_C09_v1_big_id', [raw]))
+    for version in (1, 2):
+        for kind in (0, 1, 2):
+            ts.append(Task('verifHarness_C09_gapless', [version, kind]))
     return ts
 
 
 def required_reach(tier):
-    return ['C09/S', 'C09/M', 'C09/I', 'C09/V', 'C09/W', 'C11/K3', 'C09/N', 'C09/P']
+    return ['C09/S', 'C09/M', 'C09/I', 'C09/V', 'C09/W', 'C11/K3', 'C09/N', 'C09/P', 'C09/G']
 
 
 def bounds(tier):
@@ -55,12 +58,12 @@ def bounds(tier):
             'crosscheck': '3 consecutive writes of mixed shapes from a fresh writer',
             'node_init': 'Node.Initialize and the deprecated NewNode(NodeConf): every valid configuration (version, system id, component id, keys, heartbeat / stream-request / timeout settings symbolic) is accepted and reaches the node and a new channel\'s stream writer unchanged (component id 1 when unset); a missing version, a zero system id and a key with version 1 are refused',
             'frame_constructors': 'frame.NewReadWriter / ReadWriter.Initialize / NewReader + NewWriter: dialect, keys, version, system id, component id (1 when unset), link id symbolic: the reader and writer hold exactly what was configured',
+            'gapless_over_refusals': 'from an arbitrary counter state: a refused write (nil message, message outside the dialect, v1 id > 255) consumes no sequence number and emits nothing; the next accepted frame carries the next number; also after a transport failure the next frame carries the counter\'s number (both versions)',
             'init': 'every (version int, system id, component id, key present/absent)',
             'string_lengths': 'shape 1 string lengths 0,2,4,5 (quick) / 0..6 (thorough), bytes symbolic'}
 
 
 OUTSIDE = ['that heartbeats and stream requests reach the stream writer (goroutine plumbing; sequential kernels in C11/C16)',
-           'whether a rejected write consumes a sequence number is not stated by the property (the code does consume one); not asserted',
            'message types other than the harness dialect (layout of shipped types: C03/C04)']
 STUBS = ['x25 summarised by crcstep (C02 lemmas)', 'sha256 uninterpreted', 'time.Since: arbitrary non-decreasing clock reading in [0, 2^48 * 10 us) (years 2015..2104)',
          'message.(*ReadWriter).Initialize executed from real SSA with reflect intrinsics']
